@@ -16,6 +16,7 @@ import z3
 from pyvc import npsym as N
 from pyvc import terms as T
 from pyvc.contract import Contract, register
+from pyvc.ctx import PathAbort
 from pyvc.values import Arr, Rec
 
 I = z3.IntSort()
@@ -912,3 +913,191 @@ class sp_logical_xor(_LogicalSparse):
     qual = Q + "logical_xor"
     doc = "S.logical_xor(O): indicator of the positions where exactly one operand is nonzero."
     pred = staticmethod(lambda x, y: z3.Xor(x, y))
+
+
+@register
+class sp_squeeze(Contract):
+    qual = Q + "squeeze"
+    props = ("C07", "C06")
+    doc = (
+        "S.squeeze(): with sel = the modes of extent > 1 in increasing order (K of them): K = 0 -> returns the "
+        "single entry as a scalar (= Den(S) at the only subscript); otherwise a well-formed sptensor with "
+        "shape[t] = S.shape[sel t], subscript (k, t) = S.subs[k, sel t], the same values in the same order."
+    )
+    inline = INLINE_CTOR
+
+    def setup(self, S, case):
+        return dict(__self__=sym_sptensor(S, "A"))
+
+    def ensures(self, S, a, ret):
+        A = a["__self__"]
+        g = A.ghost
+        Nn, n, srow = g["N"], g["n"], g["srow"]
+        As, Av, Ash = A.fields["subs"], A.fields["vals"], A.fields["shape"]
+        ra = As.rowfn
+        t, m, k = z3.Int("sq!t"), z3.Int("sq!m"), z3.Int("sq!k")
+        gh = S.body_ghosts.get("select")
+        if gh:
+            K, sel, rk = gh[-1]
+        else:
+            # path `np.all(shape > 1)`: every mode is kept
+            K, sel, rk = Nn, (lambda x: x), (lambda x: x)
+        big = lambda q: T.tz(Ash.fn(q)) > 1
+        yield "selection:kept-modes-have-extent>1", T.ForAll([t], z3.Implies(z3.And(0 <= t, t < K), z3.And(0 <= sel(t), sel(t) < Nn, big(sel(t)))))
+        yield "selection:every-mode-of-extent>1-is-kept", T.ForAll([m], z3.Implies(z3.And(0 <= m, m < Nn, big(m)), z3.And(0 <= rk(m), rk(m) < K, sel(rk(m)) == m)))
+        yield "selection:order-preserved", T.ForAll([t, m], z3.Implies(z3.And(0 <= t, t < m, m < K), sel(t) < sel(m)))
+        if not (isinstance(ret, Rec) and ret.cls == "sptensor"):
+            yield "scalar-only-when-all-modes-singleton", S.eq(K, 0)
+            # the only in-range subscript is (0,...,0); Den(S) there is the stored value, or 0
+            r = z3.Const("sq!r", N.Row)
+            yield "scalar-is-the-entry", T.ForAll([r], z3.Implies(N.INRNG(srow, r), T.tz(ret) == den(A, r)), [N.INRNG(srow, r)])
+            return
+        yield "sptensor-only-when-some-mode-is-kept", K >= 1
+        subs, vals, shape = result_parts(ret)
+        slen, sat = seq_view(shape)
+        yield "shape-is-the-kept-extents", S.And(S.eq(slen, K), T.ForAll([t], z3.Implies(z3.And(0 <= t, t < K), sat(t) == T.tz(Ash.fn(sel(t))))))
+        yield "arrays", S.And(subs.ndim == 2, vals.ndim == 2, S.eq(subs.shape[0], n), S.eq(vals.shape[0], n), S.eq(vals.shape[1], 1),
+                              S.Or(S.eq(n, 0), S.eq(subs.shape[1], K)))
+        yield "subscripts-are-the-kept-columns", T.ForAll(
+            [k, t], z3.Implies(z3.And(0 <= k, k < n, 0 <= t, t < K), T.tz(subs.fn(k, t)) == T.tz(As.fn(k, sel(t)))))
+        yield "values-unchanged", T.ForAll([k], z3.Implies(z3.And(0 <= k, k < n), T.tz(vals.fn(k, 0)) == T.tz(Av.fn(k, 0))))
+        yield "subscripts-inside-new-shape", T.ForAll(
+            [k, t], z3.Implies(z3.And(0 <= k, k < n, 0 <= t, t < K), z3.And(0 <= T.tz(subs.fn(k, t)), T.tz(subs.fn(k, t)) < sat(t))))
+        # distinct rows: two stored rows of S differ in some column w; a singleton mode only holds 0, so
+        # extent(w) > 1, w is kept as column rk(w), and the result rows differ there
+        i, j = z3.Int("sq!i"), z3.Int("sq!j")
+        w = lambda i_, j_: N.rdiff(ra(i_), ra(j_))
+        yield "lemma:differing-column-has-extent>1", T.ForAll(
+            [i, j], z3.Implies(z3.And(0 <= i, i < j, j < n), z3.And(0 <= w(i, j), w(i, j) < Nn, big(w(i, j)))), [[ra(i), ra(j)]]), "lemma"
+        yield "rows-pairwise-distinct(witness)", T.ForAll(
+            [i, j], z3.Implies(z3.And(0 <= i, i < j, j < n),
+                               z3.And(0 <= rk(w(i, j)), rk(w(i, j)) < K,
+                                      T.tz(subs.fn(i, rk(w(i, j)))) != T.tz(subs.fn(j, rk(w(i, j)))))), [[ra(i), ra(j)]])
+
+
+@register
+class sp_reshape(Contract):
+    qual = Q + "reshape"
+    props = ("C07", "C06", "C19")
+    doc = (
+        "S.reshape(new_shape, old_modes): with om = old_modes (all modes when omitted) and km = the other modes in "
+        "increasing order, requires prod(new_shape) == prod(S.shape[om]) (else raises); result shape = S.shape[km] ++ "
+        "new_shape; stored row k = S.subs[k, km] ++ UNRAVEL_F(new_shape, RAVEL_F(S.shape[om], S.subs[k, om])); values "
+        "unchanged and in the same order; rows stay pairwise distinct and inside the new shape."
+    )
+    inline = INLINE_CTOR
+
+    def case_names(self):
+        return ["all-modes", "subset"]
+
+    def setup(self, S, case):
+        A = sym_sptensor(S, "A")
+        Ln = S.int("Ln", 1)
+        new_shape = S.vector("new_shape", Ln, "int", kind="tuple")
+        S.assume(S.forall(0, Ln, lambda q: new_shape.fn(q) >= 1, pats=lambda q: [new_shape.fn(q)]))
+        a = dict(__self__=A, new_shape=new_shape)
+        if case == "subset":
+            Nn = A.ghost["N"]
+            Lo = S.int("Lo", 1)
+            om = S.vector("old_modes", Lo, "int")
+            q1, q2 = z3.Int("rs!q1"), z3.Int("rs!q2")
+            # old_modes: distinct modes of S (the function does not validate them; precondition)
+            S.assume(S.forall(0, Lo, lambda q: S.And(0 <= om.fn(q), om.fn(q) < Nn), pats=lambda q: [om.fn(q)]))
+            S.assume(T.ForAll([q1, q2], z3.Implies(z3.And(0 <= q1, q1 < q2, q2 < Lo), T.tz(om.fn(q1)) != T.tz(om.fn(q2)))))
+            a["old_modes"] = om
+        return a
+
+    def raises_when(self, S, a):
+        A, ns, om = a["__self__"], a["new_shape"], a.get("old_modes")
+        Ash = A.fields["shape"]
+        if om is None:
+            orow = A.ghost["srow"]
+            for p in S.ctx.ghosts.get("row", []):
+                S.ctx.assume(N.row_ext(orow, p))
+        else:
+            orow = N.spec_row(S.ctx, om.shape[0], lambda q: T.tz(Ash.fn(om.fn(q))))
+        nrow = N.spec_row(S.ctx, ns.shape[0], lambda q: T.tz(ns.fn(q)))
+        yield "element-count-changes", N.PRODR(nrow) != N.PRODR(orow)
+
+    def ensures(self, S, a, ret):
+        A = a["__self__"]
+        g = A.ghost
+        Nn, n = g["N"], g["n"]
+        As, Av, Ash = A.fields["subs"], A.fields["vals"], A.fields["shape"]
+        ns = a["new_shape"]
+        Ln = ns.shape[0]
+        yield "returns-sptensor", _is_sptensor(ret)
+        subs, vals, shape = result_parts(ret)
+        slen, sat = seq_view(shape)
+        bg = S.body_ghosts
+        om = a.get("old_modes")
+        c, k = z3.Int("rs!c"), z3.Int("rs!k")
+        if om is None:
+            Kk, km = z3.IntVal(0), (lambda x: x)
+            omf, Lo = (lambda x: x), Nn
+        else:
+            sd = bg.get("setdiff1d")
+            if not sd:
+                raise PathAbort("reshape contract: setdiff1d ghost missing")
+            Kk, km = sd[-1][0], sd[-1][1]
+            omf, Lo = (lambda x: T.tz(om.fn(x))), om.shape[0]
+        yield "shape:length", S.eq(slen, Kk + Ln)
+        yield "shape:kept-extents-first", T.ForAll([c], z3.Implies(z3.And(0 <= c, c < Kk), sat(c) == T.tz(Ash.fn(km(c)))))
+        yield "shape:then-new-shape", T.ForAll([c], z3.Implies(z3.And(0 <= c, c < Ln), sat(Kk + c) == T.tz(ns.fn(c))))
+        yield "arrays", S.And(subs.ndim == 2, vals.ndim == 2, S.eq(subs.shape[0], n), S.eq(vals.shape[0], n), S.eq(vals.shape[1], 1),
+                              S.Or(S.eq(n, 0), S.eq(subs.shape[1], Kk + Ln)))
+        yield "values-unchanged", T.ForAll([k], z3.Implies(z3.And(0 <= k, k < n), T.tz(vals.fn(k, 0)) == T.tz(Av.fn(k, 0))))
+        yield "kept-columns-unchanged", T.ForAll(
+            [k, c], z3.Implies(z3.And(0 <= k, k < n, 0 <= c, c < Kk), T.tz(subs.fn(k, c)) == T.tz(As.fn(k, km(c)))))
+        ca = bg.get("callargs:tt_sub2ind")
+        if not ca:
+            return  # empty-tensor path: nothing stored
+        sa = ca[-1]
+        grow = N.ensure_rows(S.ctx, sa["subs"])  # the gathered rows S.subs[k, om]
+        orow = N.seq_as_row(S.ctx, sa["shape"])  # S.shape[om]
+        nrow = N.seq_as_row(S.ctx, bg["callargs:tt_ind2sub"][-1]["shape"])
+        yield "ghost:gathered-row-is-S.subs[k,om]", T.ForAll(
+            [k, c], z3.Implies(z3.And(0 <= k, k < n, 0 <= c, c < Lo), z3.And(N.rlen(grow(k)) == Lo, N.relem(grow(k), c) == T.tz(As.fn(k, omf(c)))))), "lemma"
+        yield "ghost:old-extents-row-is-S.shape[om]", S.And(N.rlen(orow) == Lo, T.ForAll([c], z3.Implies(z3.And(0 <= c, c < Lo), N.relem(orow, c) == T.tz(Ash.fn(omf(c)))))), "lemma"
+        yield "ghost:new-extents-row-is-new_shape", S.And(N.rlen(nrow) == Ln, T.ForAll([c], z3.Implies(z3.And(0 <= c, c < Ln), N.relem(nrow, c) == T.tz(ns.fn(c))))), "lemma"
+        yield "reshaped-columns", T.ForAll(
+            [k, c], z3.Implies(z3.And(0 <= k, k < n, 0 <= c, c < Ln),
+                               T.tz(subs.fn(k, Kk + c)) == N.relem(N.UNRAVELF(nrow, N.RAVELF(orow, grow(k))), c)))
+        yield "subscripts-inside-new-shape", T.ForAll(
+            [k, c], z3.Implies(z3.And(0 <= k, k < n, 0 <= c, c < Kk + Ln), z3.And(0 <= T.tz(subs.fn(k, c)), T.tz(subs.fn(k, c)) < sat(c))))
+        # distinct rows.  Two stored rows of S differ in some column w.  If w is a kept mode the result rows
+        # differ in its slot; otherwise the gathered rows differ, RAVEL_F is injective on in-range rows (L1), so
+        # the linear indices differ, UNRAVEL_F is injective on 0..P-1 (L1), so the new sub-rows differ.
+        i, j = z3.Int("rs!i"), z3.Int("rs!j")
+        ra = As.rowfn
+        w = lambda i_, j_: N.rdiff(ra(i_), ra(j_))
+        lin = lambda k_: N.RAVELF(orow, grow(k_))
+        U = lambda k_: N.UNRAVELF(nrow, lin(k_))
+        d = lambda i_, j_: N.rdiff(U(i_), U(j_))
+        rng = lambda i_, j_: z3.And(0 <= i_, i_ < j_, j_ < n)
+        if om is None:
+            in_om = lambda x: z3.BoolVal(True)
+            om_pos = lambda x: x
+            slot = lambda x: x
+        else:
+            mem, wit = bg["isin"][-1]
+            in_om, om_pos = (lambda x: mem(x)), (lambda x: wit(x))
+            slot = sd[-1][2]
+        yield "lemma:gathered-rows-in-range", T.ForAll([k], z3.Implies(z3.And(0 <= k, k < n), N.INRNG(orow, grow(k))), [grow(k)]), "lemma"
+        P_ = lambda i_, j_: om_pos(w(i_, j_))
+        yield "lemma:gathered-rows-at-the-differing-mode", T.ForAll(
+            [i, j], z3.Implies(z3.And(rng(i, j), in_om(w(i, j))),
+                               z3.And(0 <= P_(i, j), P_(i, j) < Lo, omf(P_(i, j)) == w(i, j),
+                                      N.relem(grow(i), P_(i, j)) == N.relem(ra(i), w(i, j)),
+                                      N.relem(grow(j), P_(i, j)) == N.relem(ra(j), w(i, j)))), [[ra(i), ra(j)]]), "lemma"
+        yield "lemma:differing-reshaped-mode-gives-different-gathered-rows", T.ForAll(
+            [i, j], z3.Implies(z3.And(rng(i, j), in_om(w(i, j))), grow(i) != grow(j)), [[ra(i), ra(j)]]), "lemma"
+        yield "lemma:different-linear-indices", T.ForAll(
+            [i, j], z3.Implies(z3.And(rng(i, j), in_om(w(i, j))), lin(i) != lin(j)), [[ra(i), ra(j)]]), "lemma"
+        yield "lemma:different-new-subrows", T.ForAll(
+            [i, j], z3.Implies(z3.And(rng(i, j), in_om(w(i, j))),
+                               z3.And(U(i) != U(j), 0 <= d(i, j), d(i, j) < Ln, N.relem(U(i), d(i, j)) != N.relem(U(j), d(i, j)))), [[ra(i), ra(j)]]), "lemma"
+        col = lambda i_, j_: z3.If(in_om(w(i_, j_)), Kk + d(i_, j_), slot(w(i_, j_)))
+        yield "rows-pairwise-distinct(witness)", T.ForAll(
+            [i, j], z3.Implies(rng(i, j), z3.And(0 <= col(i, j), col(i, j) < Kk + Ln,
+                                                 T.tz(subs.fn(i, col(i, j))) != T.tz(subs.fn(j, col(i, j))))), [[ra(i), ra(j)]])
